@@ -25,3 +25,4 @@ import ImathVerif.Props.C09Next
 import ImathVerif.Props.C09Quat
 import ImathVerif.Props.C15
 import ImathVerif.Props.C12
+import ImathVerif.Props.C12Recompose
